@@ -248,14 +248,27 @@ class _MetaHTMLParser(html.parser.HTMLParser):
 
 
 class _Lits(ast.NodeTransformer):
-    """replaces every string literal by 'S' and remembers them in source order"""
+    """replaces every string literal by 'S' and remembers them in source order; parameters and local names are
+    renamed in order of first appearance (a renamed local is the same shape)"""
     def __init__(self):
         self.lits = []
+        self.names = {}
+
+    def _nm(self, x):
+        return self.names.setdefault(x, 'n%d' % len(self.names))
 
     def visit_Constant(self, n):
         if isinstance(n.value, str):
             self.lits.append(n.value)
             return ast.copy_location(ast.Constant(value='S'), n)
+        return n
+
+    def visit_arg(self, n):
+        n.arg = self._nm(n.arg)
+        return n
+
+    def visit_Name(self, n):
+        n.id = self._nm(n.id)
         return n
 
 
